@@ -99,3 +99,9 @@ pub use mrt_file_in::verif_hooks_http as verif_mrt_file_in_http;
 /// mrt-file-in `process_file` and queue runner for `crate::verif` users.
 #[cfg(feature = "verif-hooks")]
 pub use mrt_file_in::unit::verif_hooks_c16 as verif_mrt_file_in_c16;
+
+/// Verification hooks (feature `verif-hooks`, add-only): `filter` is a
+/// private module, so the `filter` unit's runner hook is re-exported here
+/// for `crate::verif` users (bridge RotoRib).
+#[cfg(feature = "verif-hooks")]
+pub use filter::unit::verif_hooks_rotorib as verif_filter_unit;
